@@ -2,8 +2,9 @@
 // the real aggregator selection and Aggregate (services/attestationaggregator/standard) and the
 // real controller paths subscribeToBeaconCommittees / AttestAndScheduleAggregate
 // (services/controller/standard, built through the verif hook NewForVerifC14) over histories of
-// "subscribe for an epoch" and "attest a slot" operations, and prints every history with what the
-// implementation did as a Gallina case for Check.C14.
+// "subscribe for an epoch", "attest a slot" and "head event" (the real HandleHeadEvent, whose
+// housekeeping prunes the stored subscription information) operations, and prints every history
+// with what the implementation did as a Gallina case for Check.C14.
 //
 // Observed: the SubmitBeaconCommitteeSubscriptions payloads of each subscribe, the controller's
 // stored subscription info afterwards, and after each attest the scheduler's aggregation jobs,
@@ -34,6 +35,7 @@ import (
 	"github.com/attestantio/vouch/services/attestationaggregator"
 	standardaggregator "github.com/attestantio/vouch/services/attestationaggregator/standard"
 	"github.com/attestantio/vouch/services/attester"
+	"github.com/attestantio/vouch/services/beaconcommitteesubscriber"
 	standardsubscriber "github.com/attestantio/vouch/services/beaconcommitteesubscriber/standard"
 	standardcontroller "github.com/attestantio/vouch/services/controller/standard"
 	nullmetrics "github.com/attestantio/vouch/services/metrics/null"
@@ -69,7 +71,7 @@ type Att struct {
 }
 
 type Op struct {
-	Kind string `json:"kind"` // sub | att
+	Kind string `json:"kind"` // sub | att | head
 	Cur  uint64 `json:"cur"`  // current slot while the operation runs
 	// sub
 	Epoch      uint64   `json:"epoch,omitempty"`
@@ -82,6 +84,8 @@ type Op struct {
 	AttestFail bool     `json:"attest_fail,omitempty"`
 	NoAcct     []uint64 `json:"no_acct,omitempty"` // validators whose account lookup fails (odd index: error, even: empty answer)
 	Atts       []Att    `json:"atts,omitempty"`
+	// head
+	HSlot uint64 `json:"hslot,omitempty"` // the slot of the head event's block
 }
 
 type Input struct {
@@ -355,8 +359,14 @@ type ObsJob struct {
 	Slot, Comm, TimeMs, DSlot, Root, Val, Sig uint64
 	Out                                       *[4]uint64
 }
+type ObsInfo struct {
+	Epoch  uint64
+	Stored []ObsSub
+}
 type Obs struct {
-	Kind   string              `json:"kind"` // sub | att | panic
+	Kind   string              `json:"kind"` // sub | att | head | panic
+	Infos  []ObsInfo           `json:"infos,omitempty"` // head: the information held for every epoch a subscribe of the case names
+	Len    uint64              `json:"len,omitempty"`   // head: len(subscriptionInfos)
 	Calls  [][]ObsSubscription `json:"calls,omitempty"`
 	Stored *[]ObsSub           `json:"stored,omitempty"`
 	Jobs   []ObsJob            `json:"jobs,omitempty"`
@@ -412,8 +422,33 @@ func runCase(t *testing.T, in Input) (obs []Obs) {
 	if err != nil {
 		t.Fatalf("subscriber constructor: %v", err)
 	}
-	ctrl := standardcontroller.NewForVerifC14(level, ct, sched, e, ctrlAccounts{e}, agg, subscriber,
-		time.Duration(in.DelayMs)*time.Millisecond)
+	// One controller for the whole history.  NewForVerif (rather than NewForVerifC14) because
+	// HandleHeadEvent reads slotsPerEpoch; no tickers, no event subscriptions, no start-up duties.
+	ctrl := standardcontroller.NewForVerif(&standardcontroller.VerifDeps{
+		LogLevel:                     level,
+		ChainTime:                    ct,
+		Scheduler:                    sched,
+		Attester:                     e,
+		ValidatingAccountsProvider:   ctrlAccounts{e},
+		AttestationAggregator:        agg,
+		BeaconCommitteeSubscriber:    subscriber,
+		SlotDuration:                 slotMs * time.Millisecond,
+		SlotsPerEpoch:                in.SPE,
+		EpochsPerSyncCommitteePeriod: 256,
+		AttestationAggregationDelay:  time.Duration(in.DelayMs) * time.Millisecond,
+	})
+	// the epochs whose information a head event may hold or drop: every epoch a subscribe names
+	var subEpochs []uint64
+	{
+		seen := map[uint64]bool{}
+		for _, op := range in.Ops {
+			if op.Kind == "sub" && !seen[op.Epoch] {
+				seen[op.Epoch] = true
+				subEpochs = append(subEpochs, op.Epoch)
+			}
+		}
+		sort.Slice(subEpochs, func(i, j int) bool { return subEpochs[i] < subEpochs[j] })
+	}
 
 	// every attestation data root of the case -> the id of its attestation
 	roots := map[phase0.Root]uint64{}
@@ -480,28 +515,7 @@ func runCase(t *testing.T, in Input) (obs []Obs) {
 				o.Calls = append(o.Calls, payload)
 			}
 			if info, exists := ctrl.SubscriptionInfoC14(phase0.Epoch(op.Epoch)); exists {
-				stored := []ObsSub{}
-				for slot, m := range info {
-					for comm, s := range m {
-						x := ObsSub{Slot: uint64(slot), Comm: uint64(comm), Agg: s.IsAggregator, Sig: sigID(s.Signature)}
-						if s.Duty != nil {
-							x.Val, x.Len, x.Cas, x.Pos = uint64(s.Duty.ValidatorIndex), s.Duty.CommitteeLength, s.Duty.CommitteesAtSlot, s.Duty.ValidatorCommitteeIndex
-							if uint64(s.Duty.Slot) != uint64(slot) || uint64(s.Duty.CommitteeIndex) != uint64(comm) {
-								// the entry's own duty disagrees with its map keys: make it visible
-								x.Slot, x.Comm = uint64(s.Duty.Slot)+sentinel, uint64(s.Duty.CommitteeIndex)
-							}
-						} else {
-							x.Val = sentinel
-						}
-						stored = append(stored, x)
-					}
-				}
-				sort.Slice(stored, func(i, j int) bool {
-					if stored[i].Slot != stored[j].Slot {
-						return stored[i].Slot < stored[j].Slot
-					}
-					return stored[i].Comm < stored[j].Comm
-				})
+				stored := storedOf(info)
 				o.Stored = &stored
 			}
 			obs = append(obs, o)
@@ -550,11 +564,53 @@ func runCase(t *testing.T, in Input) (obs []Obs) {
 				return o.Jobs[i].Comm < o.Jobs[j].Comm
 			})
 			obs = append(obs, o)
+		case "head":
+			// the beacon node's "head" event, delivered as the events provider would: the real
+			// HandleHeadEvent (no reorganisation: the duty dependent roots never change; no fast
+			// track; no sync committee verification)
+			ctrl.HandleHeadEvent(&apiv1.Event{Topic: "head", Data: &apiv1.HeadEvent{
+				Slot: phase0.Slot(op.HSlot), Block: blockRoot(0xB10C0000 + op.HSlot), State: blockRoot(0x57A7E),
+			}})
+			synctest.Wait()
+			o := Obs{Kind: "head", Infos: []ObsInfo{}, Len: uint64(ctrl.VerifSubscriptionInfosLen())}
+			for _, ep := range subEpochs {
+				if info, exists := ctrl.SubscriptionInfoC14(phase0.Epoch(ep)); exists {
+					o.Infos = append(o.Infos, ObsInfo{Epoch: ep, Stored: storedOf(info)})
+				}
+			}
+			obs = append(obs, o)
 		default:
 			t.Fatalf("unknown op kind %q", op.Kind)
 		}
 	}
 	return obs
+}
+
+// storedOf lists the stored subscription information of one epoch, sorted by (slot, committee).
+func storedOf(info map[phase0.Slot]map[phase0.CommitteeIndex]*beaconcommitteesubscriber.Subscription) []ObsSub {
+	stored := []ObsSub{}
+	for slot, m := range info {
+		for comm, s := range m {
+			x := ObsSub{Slot: uint64(slot), Comm: uint64(comm), Agg: s.IsAggregator, Sig: sigID(s.Signature)}
+			if s.Duty != nil {
+				x.Val, x.Len, x.Cas, x.Pos = uint64(s.Duty.ValidatorIndex), s.Duty.CommitteeLength, s.Duty.CommitteesAtSlot, s.Duty.ValidatorCommitteeIndex
+				if uint64(s.Duty.Slot) != uint64(slot) || uint64(s.Duty.CommitteeIndex) != uint64(comm) {
+					// the entry's own duty disagrees with its map keys: make it visible
+					x.Slot, x.Comm = uint64(s.Duty.Slot)+sentinel, uint64(s.Duty.CommitteeIndex)
+				}
+			} else {
+				x.Val = sentinel
+			}
+			stored = append(stored, x)
+		}
+	}
+	sort.Slice(stored, func(i, j int) bool {
+		if stored[i].Slot != stored[j].Slot {
+			return stored[i].Slot < stored[j].Slot
+		}
+		return stored[i].Comm < stored[j].Comm
+	})
+	return stored
 }
 
 // ---------------------------------------------------------------------------------------------
@@ -596,11 +652,26 @@ func term(id uint64, in Input, obs []Obs) string {
 				as[i] = App("mkAtt", N(a.Slot), N(a.Comm), N(a.Root))
 			}
 			ops = append(ops, App("OAtt", N(op.DSlot), N(op.Cur), Bool(op.AttestFail), nlist(op.NoAcct), List(as)))
+		case "head":
+			ops = append(ops, App("OHead", N(op.HSlot), N(op.Cur)))
 		}
+	}
+	subTerm := func(s ObsSub) string {
+		return App("mkSub", N(s.Val), N(s.Slot), N(s.Comm), N(s.Len), N(s.Cas), N(s.Pos), Bool(s.Agg), N(s.Sig))
 	}
 	os := make([]string, 0, len(obs))
 	for _, o := range obs {
 		switch o.Kind {
+		case "head":
+			infos := make([]string, len(o.Infos))
+			for i, inf := range o.Infos {
+				ss := make([]string, len(inf.Stored))
+				for k, s := range inf.Stored {
+					ss[k] = subTerm(s)
+				}
+				infos[i] = Pair(N(inf.Epoch), List(ss))
+			}
+			os = append(os, App("ObsHead", List(infos), N(o.Len)))
 		case "sub":
 			calls := make([]string, len(o.Calls))
 			for i, c := range o.Calls {
@@ -614,7 +685,7 @@ func term(id uint64, in Input, obs []Obs) string {
 			if o.Stored != nil {
 				ss := make([]string, len(*o.Stored))
 				for i, s := range *o.Stored {
-					ss[i] = App("mkSub", N(s.Val), N(s.Slot), N(s.Comm), N(s.Len), N(s.Cas), N(s.Pos), Bool(s.Agg), N(s.Sig))
+					ss[i] = subTerm(s)
 				}
 				stored = Some(List(ss))
 			}
@@ -650,9 +721,48 @@ type shape struct {
 func analyse(in Input) shape {
 	sh := shape{tags: map[string]bool{}}
 	latest := map[uint64]*Op{}
+	headSince := map[uint64]bool{} // epoch -> an effective head event arrived since its latest subscribe
 	for i := range in.Ops {
 		op := &in.Ops[i]
 		switch op.Kind {
+		case "head":
+			sh.tags["head"] = true
+			hepoch := op.HSlot / in.SPE
+			switch {
+			case hepoch == 0:
+				sh.tags["head-epoch-0"] = true
+			case hepoch == 1:
+				sh.tags["head-epoch-1"] = true
+			default:
+				sh.tags["head-epoch-2+"] = true
+			}
+			if len(latest) > 0 {
+				sh.tags["head-with-info"] = true
+				sh.nontrivial = true
+			}
+			if op.HSlot != op.Cur {
+				sh.tags["head-not-current"] = true
+				for ep := range latest {
+					if ep+1 < hepoch {
+						sh.tags["head-not-current-would-drop"] = true
+					}
+				}
+				continue
+			}
+			for ep := range latest {
+				headSince[ep] = true
+				switch {
+				case ep+1 < hepoch:
+					sh.tags["head-drops-old-epoch"] = true
+					delete(latest, ep)
+				case ep+1 == hepoch:
+					sh.tags["head-keeps-previous-epoch"] = true
+				case ep == hepoch:
+					sh.tags["head-keeps-current-epoch"] = true
+				default:
+					sh.tags["head-keeps-later-epoch"] = true
+				}
+			}
 		case "sub":
 			if op.NoAccounts {
 				sh.tags["no-accounts"] = true
@@ -667,6 +777,7 @@ func analyse(in Input) shape {
 				sh.tags["resubscribe"] = true
 			}
 			latest[op.Epoch] = op
+			delete(headSince, op.Epoch)
 			past, at, future := 0, 0, 0
 			perKey := map[[2]uint64]int{}
 			lens := map[[2]uint64]uint64{}
@@ -776,6 +887,9 @@ func analyse(in Input) shape {
 			if len(sel) >= 1 {
 				sh.nontrivial = true
 				sh.selComms += len(sel)
+				if headSince[op.DSlot/in.SPE] {
+					sh.tags["head-between-subscribe-and-attest"] = true
+				}
 			}
 		}
 	}
@@ -1004,6 +1118,40 @@ func genAtt(r *Rand, in *Input, subs []Op, rootSeq *uint64) Op {
 	return op
 }
 
+// genHead makes a head event.  With [att] it is the head that precedes that attestation (the block of
+// the attestation's current slot, or of the slot before it arriving late); without, one around the
+// epochs in play: the epoch before [epoch] up to three epochs after it.
+func genHead(r *Rand, in *Input, epoch uint64, att *Op) Op {
+	op := Op{Kind: "head"}
+	if att != nil {
+		op.Cur = att.Cur
+	} else {
+		first := epoch * in.SPE
+		span := int(5 * in.SPE)
+		off := uint64(r.Intn(span))
+		if first >= in.SPE {
+			first -= in.SPE
+		}
+		op.Cur = first + off
+		if r.Chance(1, 4) { // the first or the last slot of an epoch
+			op.Cur -= op.Cur % in.SPE
+			if r.Bool() && op.Cur > 0 {
+				op.Cur--
+			}
+		}
+	}
+	op.HSlot = op.Cur
+	switch k := r.Intn(12); {
+	case k == 0 && op.Cur > 0: // the block of the previous slot, arriving late: ignored
+		op.HSlot = op.Cur - 1
+	case k == 1: // a head far ahead of the clock: ignored, whatever its epoch
+		op.HSlot = op.Cur + uint64(r.Range(2, 4))*in.SPE
+	case k == 2 && op.Cur > in.SPE: // an old head
+		op.HSlot = op.Cur - uint64(r.Range(1, int(in.SPE)))
+	}
+	return op
+}
+
 func gen(r *Rand, trace bool) Input {
 	in := Input{SPE: 8, Target: 16, DelayMs: 8000, Concurrency: int64(r.Range(1, 4)), Trace: trace}
 	switch r.Intn(6) {
@@ -1022,8 +1170,13 @@ func gen(r *Rand, trace bool) Input {
 		in.DelayMs = uint64(r.Intn(12001))
 	}
 	epoch := uint64(r.Intn(40))
-	if r.Chance(1, 10) {
-		epoch = 0
+	switch k := r.Intn(20); {
+	case k < 4:
+		epoch = 0 // the chain's first epochs: "epoch - 1" and "epoch - 2" do not exist
+	case k < 6:
+		epoch = 1
+	case k < 7:
+		epoch = 2
 	}
 	var subs []Op
 	rootSeq := uint64(r.Range(1, 1000)) * 100
@@ -1032,6 +1185,19 @@ func gen(r *Rand, trace bool) Input {
 		wantSub := i == 0 || r.Chance(1, 3)
 		if i == 0 && r.Chance(1, 15) {
 			wantSub = false // attest before any subscription
+		}
+		if i > 0 && r.Chance(1, 6) {
+			// a head event on its own, anywhere around the epochs in play
+			in.Ops = append(in.Ops, genHead(r, &in, epoch, nil))
+		}
+		if !wantSub {
+			// the usual order of a slot: the head event of the slot's block, then the attestation
+			att := genAtt(r, &in, subs, &rootSeq)
+			if r.Chance(2, 5) {
+				in.Ops = append(in.Ops, genHead(r, &in, epoch, &att))
+			}
+			in.Ops = append(in.Ops, att)
+			continue
 		}
 		if wantSub {
 			ep := epoch
@@ -1053,8 +1219,6 @@ func gen(r *Rand, trace bool) Input {
 				}
 				subs = append(kept, op)
 			}
-		} else {
-			in.Ops = append(in.Ops, genAtt(r, &in, subs, &rootSeq))
 		}
 	}
 	return in
@@ -1066,9 +1230,10 @@ func TestC14(t *testing.T) {
 	deadlock.Opts.Disable = true
 	zerologger.Logger = zerolog.New(io.Discard)
 	col := NewCollector("C14", "Check.C14",
-		"histories of 2-6 operations (subscribe an epoch at a current slot; attest a slot) over 0-10 validators; "+
+		"histories of 2-10 operations (subscribe an epoch at a current slot; attest a slot; head event) over 0-10 validators; "+
 			"non-trivial = a subscribe with at least one duty after the current slot, or an attest with at least one "+
-			"attested committee holding a selected aggregator; distinct by full input text")
+			"attested committee holding a selected aggregator, or a head event while subscription information is held; "+
+			"distinct by full input text")
 	col.ShardSize = 100 // a case costs ~25 ms in coqc (parsing numerals); the shards are evaluated in parallel
 	n := EnvInt("VERIF_N", 600)
 	var ins []Input
@@ -1096,9 +1261,10 @@ func TestC14(t *testing.T) {
 		sort.Strings(tags)
 		for _, op := range in.Ops {
 			col.Count("op:" + op.Kind)
-			if op.Kind == "sub" {
+			switch op.Kind {
+			case "sub":
 				col.Count(fmt.Sprintf("duties:%d", min(len(op.Duties), 10)))
-			} else {
+			case "att":
 				col.Count(fmt.Sprintf("attestations:%d", min(len(op.Atts), 10)))
 			}
 		}
@@ -1121,6 +1287,9 @@ func TestC14(t *testing.T) {
 			}
 			if o.Kind == "att" {
 				col.Count(fmt.Sprintf("observed:jobs:%d", min(len(o.Jobs), 10)))
+			}
+			if o.Kind == "head" {
+				col.Count(fmt.Sprintf("observed:epochs-held-after-head:%d", min(o.Len, 10)))
 			}
 		}
 		id := col.NextID()
